@@ -34,12 +34,8 @@
 -/
 import CatVerif.Proofs.LineHist
 import CatVerif.Proofs.MidLine
-import CatVerif.Proofs.Readers.Frame
-import CatVerif.Proofs.Readers.Name
 import CatVerif.Proofs.Rest
 import CatVerif.Properties.C15
-import CatVerif.Proofs.Steps.ReadChar
-import CatVerif.Proofs.Setters.Reset
 namespace Cat
 open St
 
@@ -216,13 +212,6 @@ example (D : Desc) : Reading (runOps ⟨D, ({} : St)⟩ [.service { rd := some 1
     Gen.is_unsolicited_buffer_empty, commandService, processIdleState, readCmdChar, St.emit, Reading]
   cases D.hasMutex <;> simp [St.emit, toUpper, sc, uc, Gen.to_upper]
 
-/-- where a line begins, where it is given up and where its LF is taken: the six reading states'
-functions are the text regenerated from the source's character switches (translator item T8) -/
-theorem C01_framing_generated (D : Desc) :
-    errorState = Gen.error_state ∧ processIdleState = Gen.process_idle_state D ∧ parsePrefix = Gen.parse_prefix ∧
-    parseCommand = Gen.parse_command :=
-  ⟨errorState_generated, processIdleState_generated D, parsePrefix_generated, parseCommand_generated⟩
-
 /-- the state `cat_init` leaves behind, for any descriptor and buffers -/
 theorem C01_init_world (D : Desc) (buf ubuf : List Byte) (mem : List (List Byte)) :
     LineInv (init D buf ubuf mem) ∧ MidLine (init D buf ubuf mem) ∧ owes (init D buf ubuf mem) = 0 := by
@@ -255,19 +244,5 @@ example : (runOps ⟨exDesc, init exDesc (List.replicate 16 0) [] [[0]]⟩
     (runOps ⟨exDesc, init exDesc (List.replicate 16 0) [] [[0]]⟩
       [.service { rd := some 65 }, .service { rd := some 84 }, .service { rd := some 10 }]).1.s.state ≠ .hold := by
   decide
-
-/-- the one place a byte is taken from the input (`read_cmd_char`: at most one byte per call, case-folded outside the
-argument text) is the function re-recognised in the source on every run (translator item T14) -/
-theorem C01_read_generated : readCmdChar = Gen.read_cmd_char := readCmdChar_generated
-
-/-- the return to IDLE after an answer (`reset_state`: IDLE and `cr_flag` cleared, unless a command is held) is the
-function translated from the source on every run (translator item T7) -/
-theorem C01_reset_generated (D : Desc) (s : St) : resetState s = Gen.reset_state D s := resetState_generated D s
-
-/-- the counters this property's theorems keep as unbounded natural numbers (`length`) are declared
-`size_t` in `cat.h` — 64 bits on the target, so they cannot wrap on any buffer, table or line that exists; the widths
-are read from the struct declarations on every run (translator item T21) -/
-theorem C01_counters_unbounded :
-    Gen.width_obj_length = 64 := by decide
 
 end Cat
